@@ -616,7 +616,7 @@ class CourierClient(metaclass=func_utils.SingletonMeta):
     while (delta_time := time.time() - ticker) < deadline_secs:
       if self.is_alive:
         return
-    await asyncio.sleep(0.1)
+      await asyncio.sleep(0.1)
     raise RuntimeError(
         f'Failed to connect to async worker {self.address} after'
         f' {delta_time:.2f}s.'
